@@ -672,7 +672,90 @@ pub fn fuzz_drive(h: fn(), needles: &[&str], tries: usize) {
     let mut k = 0;
     while k < tries && found.is_none() {
         let mut bytes = vec![0u8; 2048];
-        match k % 4 {
+        if k % 2 == 1 {
+            // position mode: a consistent random position, auxiliary state and rules-shaped move candidates, laid out in the
+            // order the board harnesses read them (Raw: w[6] b[6] ep rights | turn | ep_prefix rights_prefix half[2] full hash
+            // max_seen[2] | (from to promo) x 3 | random tail)
+            let wtm = (k / 2) % 2 == 0;
+            let (w, b, ep, rights) = fuzz_position(&mut rnd, wtm);
+            let mut o = 0;
+            for v in w.iter().chain(b.iter()) {
+                bytes[o..o + 8].copy_from_slice(&v.to_le_bytes());
+                o += 8;
+            }
+            bytes[o..o + 8].copy_from_slice(&ep.to_le_bytes());
+            o += 8;
+            bytes[o] = rights;
+            o += 1;
+            bytes[o] = rnd() as u8; // turn flag
+            o += 1;
+            let epp: u64 = if rnd() % 3 == 0 { 1u64 << (rnd() % 64) } else { 0 };
+            bytes[o..o + 8].copy_from_slice(&epp.to_le_bytes());
+            o += 8;
+            bytes[o] = rights | (rnd() % 16) as u8;
+            o += 1;
+            bytes[o] = rnd() as u8;
+            bytes[o + 1] = if rnd() % 4 == 0 { (rnd() % 200) as u8 } else { (rnd() % 8) as u8 };
+            o += 2;
+            let full: u32 = if rnd() % 4 == 0 { (rnd() % 100_000) as u32 } else { (rnd() % 200) as u32 + 1 };
+            bytes[o..o + 4].copy_from_slice(&full.to_le_bytes());
+            o += 4;
+            bytes[o..o + 8].copy_from_slice(&rnd().to_le_bytes());
+            o += 8;
+            bytes[o] = 1;
+            bytes[o + 1] = 1 + (rnd() % 3) as u8;
+            o += 2;
+            let occ_w = occ6(&w);
+            let occ_b = occ6(&b);
+            for _ in 0..3 {
+                let mover_white = if rnd() % 4 == 0 { !wtm } else { wtm };
+                let own = if mover_white { occ_w } else { occ_b };
+                // origin: a random own piece
+                let mut from = (rnd() % 64) as u8;
+                let mut tries = 0;
+                while own & bit(from) == 0 && tries < 64 {
+                    from = (from + 1) % 64;
+                    tries += 1;
+                }
+                let r = rnd();
+                let mut to = ((r >> 8) % 64) as u8;
+                match r % 6 {
+                    0 => {
+                        let c = [(4u8, 6u8), (4, 2), (60, 62), (60, 58)][((r >> 16) % 4) as usize];
+                        from = c.0;
+                        to = c.1;
+                    }
+                    1 if ep != 0 => {
+                        to = ep.trailing_zeros() as u8;
+                        let d: i16 = if wtm { -8 } else { 8 };
+                        let side: i16 = if (r >> 16) % 2 == 0 { -1 } else { 1 };
+                        from = ((to as i16 + d + side) & 63) as u8;
+                    }
+                    2 | 3 => {
+                        // a short step from the origin (king / pawn / knight shapes)
+                        let deltas: [i16; 18] = [8, -8, 1, -1, 7, -7, 9, -9, 16, -16, 6, -6, 10, -10, 15, -15, 17, -17];
+                        to = ((from as i16 + deltas[((r >> 16) % 18) as usize]) & 63) as u8;
+                    }
+                    _ => {}
+                }
+                bytes[o] = from;
+                bytes[o + 1] = to;
+                bytes[o + 2] = 1 + ((r >> 24) % 4) as u8;
+                o += 3;
+            }
+            for b in bytes[o..].iter_mut() {
+                *b = rnd() as u8;
+            }
+            if rnd() % 3 == 0 {
+                // sparse tail (attack maps etc. mostly empty)
+                for b in bytes[o..].iter_mut() {
+                    if rnd() % 8 != 0 {
+                        *b = 0;
+                    }
+                }
+            }
+        } else {
+        match (k / 2) % 4 {
             3 => {
                 for b in bytes.iter_mut() {
                     *b = rnd() as u8;
@@ -696,6 +779,7 @@ pub fn fuzz_drive(h: fn(), needles: &[&str], tries: usize) {
                     bytes[p] = if r % 4 == 0 { (r >> 8) as u8 } else { vals[((r >> 8) % 12) as usize] };
                 }
             }
+        }
         }
         unsafe {
             FUZZ_ON = true;
@@ -726,6 +810,82 @@ pub fn fuzz_drive(h: fn(), needles: &[&str], tries: usize) {
         }
         None => println!("FUZZ-NOT-REPRODUCED after {} tries", tries),
     }
+}
+
+/// a random position satisfying the representation invariant (kings, <= 12 further pieces, pawns off the back ranks,
+/// rights only with king and rook at home, en-passant target consistent with the side that just moved)
+#[cfg(test)]
+fn fuzz_position(rnd: &mut dyn FnMut() -> u64, white_to_move: bool) -> ([u64; 6], [u64; 6], u64, u8) {
+    let mut w = [0u64; 6];
+    let mut b = [0u64; 6];
+    let home = rnd() % 3 != 0;
+    let wk: u8 = if home { 4 } else { (rnd() % 64) as u8 };
+    let mut bk: u8 = if home { 60 } else { (rnd() % 64) as u8 };
+    if bk == wk {
+        bk = (wk + 17) % 64;
+    }
+    w[K] = bit(wk);
+    b[K] = bit(bk);
+    let mut occ = w[K] | b[K];
+    let mut rights = 0u8;
+    if home {
+        for (sq, white, flag) in [(7u8, true, WK), (0, true, WQ), (63, false, BK), (56, false, BQ)] {
+            if rnd() % 2 == 0 {
+                if white {
+                    w[R] |= bit(sq);
+                } else {
+                    b[R] |= bit(sq);
+                }
+                occ |= bit(sq);
+                if rnd() % 4 != 0 {
+                    rights |= flag;
+                }
+            }
+        }
+    }
+    let n = rnd() % 13;
+    for _ in 0..n {
+        let r = rnd();
+        let kind = (r % 5) as usize;
+        let white = (r >> 8) % 2 == 0;
+        let mut sq = ((r >> 16) % 64) as u8;
+        if kind == P {
+            let rank = match (r >> 24) % 4 {
+                0 => if white { 6 } else { 1 },
+                1 => if white { 3 } else { 4 },
+                _ => 1 + ((r >> 32) % 6) as u8,
+            };
+            sq = rank * 8 + sq % 8;
+        }
+        if occ & bit(sq) != 0 {
+            continue;
+        }
+        occ |= bit(sq);
+        if white {
+            w[kind] |= bit(sq);
+        } else {
+            b[kind] |= bit(sq);
+        }
+    }
+    // en-passant target: the pawn of the side that just moved stands on its 4th rank with both squares behind it empty
+    let mut ep = 0u64;
+    if rnd() % 5 < 2 {
+        let f = (rnd() % 8) as u8;
+        if white_to_move {
+            let (p, mid, orig) = (bit(32 + f), bit(40 + f), bit(48 + f));
+            if occ & (mid | orig) == 0 && (b[P] & p != 0 || occ & p == 0) {
+                b[P] |= p;
+                ep = mid;
+            }
+        } else {
+            let (p, mid, orig) = (bit(24 + f), bit(16 + f), bit(8 + f));
+            if occ & (mid | orig) == 0 && (w[P] & p != 0 || occ & p == 0) {
+                w[P] |= p;
+                ep = mid;
+            }
+        }
+    }
+    (w, b, ep, rights)
 }
 
 /// replay of a recorded byte stream (bin/replay for fuzz-found counterexamples)
